@@ -64,6 +64,10 @@ func refOCRAMsgCode(key, msg []byte, digits, algo int) string {
 }
 
 // spell returns a spelling of the base32 encoding of key chosen by r.
+// every code point with the Unicode White_Space property
+var unicodeSpaces = []string{"\t", "\n", "\v", "\f", "\r", " ", "\u0085", "\u00a0", "\u1680", "\u2000", "\u2001", "\u2002", "\u2003", "\u2004", "\u2005",
+	"\u2006", "\u2007", "\u2008", "\u2009", "\u200a", "\u2028", "\u2029", "\u202f", "\u205f", "\u3000"}
+
 func spell(r *rng, key []byte) string {
 	e := base32.StdEncoding.EncodeToString(key)
 	npad := len(e) - len(strings.TrimRight(e, "="))
@@ -94,5 +98,9 @@ func spell(r *rng, key []byte) string {
 		s = string(b)
 	}
 	ws := []string{"", "", " ", "\t", "\n", " \t\n", "\r\n", "  ", "\v", "\f"}
+	if r.intn(6) == 0 {
+		// the whole Unicode White_Space set (what strings.TrimSpace strips), not only its ASCII / Latin-1 part
+		ws = unicodeSpaces
+	}
 	return ws[r.intn(len(ws))] + s + ws[r.intn(len(ws))]
 }
